@@ -57,6 +57,7 @@ def listing(root):
 
 class C08(Prop):
     id = 'C08'
+    extracted = True      # codec table / get_codec / part-file suffix / line encoding regenerated from the current source (Extracted/EquivC08.lean)
     quick_cases = 900
     thorough_cases = 12000
     quick_budget_s = 60
